@@ -48,6 +48,8 @@ type scheduler struct {
 	memW     map[string]int   // unit -> writer thread
 	memR     map[string][]int // unit -> reader threads
 	trace    []string
+	tryBlocked  bool // also offer (at the price of a deviation) to resume a thread that the in-memory lock MODEL says is blocked: the model is derived from hook points, the real lock decides
+	modelBroken bool // a thread got past an in-memory lock point although the model said the lock was held: from then on only the real lock decides
 	extQuiet time.Duration                                     // >0: a resumed thread that stays silent this long is taken to be blocked on an unhooked lock
 	onPoint  func(t *schedThread, point string, args []string) // observer called when a thread reaches a point (in scheduler context)
 }
@@ -107,13 +109,27 @@ func (s *scheduler) enabled(t *schedThread) bool {
 		_, held := s.fileLock[arg]
 		return !held
 	case "mem.lock.before":
+		if s.modelBroken {
+			return true
+		}
 		_, w := s.memW[arg]
 		return !w && len(s.memR[arg]) == 0
 	case "mem.rlock.before":
+		if s.modelBroken {
+			return true
+		}
 		_, w := s.memW[arg]
 		return !w
 	}
 	return true
+}
+
+// memBlocked: parked at an in-memory lock point that the model considers held
+func (s *scheduler) memBlocked(t *schedThread) bool {
+	if t.finished || t.extBlock {
+		return false
+	}
+	return (t.point == "mem.lock.before" || t.point == "mem.rlock.before") && !s.enabled(t)
 }
 
 // applyPoint updates the lock model when a thread *leaves* a point (is resumed from it) or reaches one.
@@ -231,6 +247,15 @@ func (s *scheduler) run(r *xrun) schedResult {
 				byLabel[t.name] = t
 			}
 		}
+		trying := false
+		if s.tryBlocked && s.extQuiet > 0 {
+			for _, t := range s.threads {
+				if s.memBlocked(t) {
+					opts = append(opts, t.name+"!")
+					byLabel[t.name+"!"] = t
+				}
+			}
+		}
 		var pick *schedThread
 		if len(opts) == 1 {
 			pick = byLabel[opts[0]]
@@ -241,7 +266,12 @@ func (s *scheduler) run(r *xrun) schedResult {
 		} else {
 			pick = byLabel[r.choose(opts)]
 		}
-		s.leaving(pick)
+		// (which label was taken: an optimistic attempt does not update the lock model)
+		if s.tryBlocked && s.memBlocked(pick) {
+			trying = true
+		} else {
+			s.leaving(pick)
+		}
 		s.trace = append(s.trace, pick.name+"@"+pick.point)
 		cur = pick.id
 		r.steps++
@@ -253,6 +283,11 @@ func (s *scheduler) run(r *xrun) schedResult {
 		for waitFor := pick.id; waitFor >= 0; {
 			select {
 			case ev := <-s.events:
+				if trying && ev.tid == pick.id {
+					// it got through although the hook points say another thread is inside: the model no longer holds
+					s.modelBroken = true
+					s.trace = append(s.trace, "(model: "+pick.name+" passed a lock point that the hook points say is held)")
+				}
 				s.process(ev)
 				if ev.tid == waitFor {
 					waitFor = -1
